@@ -75,6 +75,8 @@ fn bad_words(l: Lang) -> &'static [&'static str] {
         Lang::Unsigned => &["x", "@1", "-5", "+5"],
         Lang::Types => &["1", "Z", "@", "%"],
         Lang::Perm => &["x", "9", "@", "?"],
+        // formats whose first directive is no directive
+        Lang::Fmt | Lang::StrFmt => &["%q", "%", "%{bogus}", "%Q%p"],
         _ => &[],
     }
 }
@@ -174,7 +176,7 @@ pub fn replay(case: &Value) -> Result<Verdict, String> {
 }
 
 const PREFIXES: [&str; 9] = ["", "-true ", "-name x -o ", "-uid 1 -a ! ", "-true -name 'a b' -uid 1 ", "( -true ) -o ", "-name café ", "-name 日本語 -o -iname 'é😀' ", "-name\t'x\ny'\n"];
-const SUFFIXES: [&str; 7] = ["", " -print", " -o -name y -print", " -a -uid 2", " ", "\n", " \t "];
+const SUFFIXES: [&str; 10] = ["", " -print", " -o -name y -print", " -a -uid 2", " ", "\n", " \t ", " -name 'a'", " -o -name \"b c\" -print", " -fprint 'it''s'"];
 
 pub fn build(kw: &str, lang: Lang, missing: bool, second: bool, bad: usize, pre: usize, suf: usize, paren: bool) -> Option<Case> {
     let prefix = PREFIXES[pre % PREFIXES.len()];
@@ -194,9 +196,9 @@ pub fn build(kw: &str, lang: Lang, missing: bool, second: bool, bad: usize, pre:
         // the same word written between quotes (the argument word is then the quoted content), for
         // the languages that are not themselves 'word or quoted string'
         match (bad / words.len()) % 3 {
-            1 if lang != Lang::Perm => (format!("{kw} '{w} {w}'"), format!("{w} {w}"), "invalid"),
-            2 if lang != Lang::Perm => (format!("{kw} \"{w}\""), w.to_string(), "invalid"),
-            _ => (format!("{kw} {w}"), w.to_string(), "invalid"),
+            1 if lang != Lang::Perm => (format!("{kw}{} '{w} {w}'", if lang == Lang::StrFmt { " out.txt" } else { "" }), format!("{w} {w}"), "invalid"),
+            2 if lang != Lang::Perm => (format!("{kw}{} \"{w}\"", if lang == Lang::StrFmt { " out.txt" } else { "" }), w.to_string(), "invalid"),
+            _ => (format!("{kw}{} {w}", if lang == Lang::StrFmt { " out.txt" } else { "" }), w.to_string(), "invalid"),
         }
     };
     // a missing argument is only missing at the end of the input or before ')'
@@ -277,8 +279,8 @@ pub fn run(ctx: &Ctx) -> Report {
     total.merge(rnd);
     Report {
         stats: total,
-        rule: "every argument-taking keyword (tests, actions, options) with its argument missing (end of input or before ')'; also the second argument of -xattr-match/-fprintf) or replaced by a word invalid from its first character for that argument language (x, @1, ?, k5 for numbers/sizes/times; 1, Z for types; x, 9 for modes; -5 for unsigned), placed after 0..3 valid primaries and before 0..2 more, optionally inside parentheses; unknown words with no keyword prefix at random positions. Oracle on the Display text of the error: non-empty; contains the keyword; quotes the offending word in backquotes (an empty pair when missing); for unknown words quotes the word; every backquoted segment occurs in the input. A quarter of the cases are preceded on the same thread by rejected inputs of the same keyword, another quarter by accepted inputs including ones that earn a misplaced-option warning, a third quarter by every prefix of the input itself that ends at a blank (some end inside a quoted string): the message must not depend on earlier calls. In two cases out of five the keyword glued to the offending word also occurs elsewhere in the input as a plain string argument (decoy). Non-trivial: the failing primary is not first, or the argument is missing. Distinct: by input.".into(),
-        assumptions: vec!["string-valued arguments accept any word, so only 'missing' applies to them; format strings are not used for 'invalid from the first character'".into()],
+        rule: "every argument-taking keyword (tests, actions, options) with its argument missing (end of input or before ')'; also the second argument of -xattr-match/-fprintf) or replaced by a word invalid from its first character for that argument language (x, @1, ?, k5 for numbers/sizes/times; 1, Z for types; x, 9 for modes; -5 for unsigned; %q, %, %{bogus} for formats), bare or between quotes (then also with a blank inside), followed by nothing or by further primaries some of which carry quoted strings of either kind, placed after 0..3 valid primaries and before 0..2 more, optionally inside parentheses; unknown words with no keyword prefix at random positions. Oracle on the Display text of the error: non-empty; contains the keyword; quotes the offending word in backquotes (an empty pair when missing); for unknown words quotes the word; every backquoted segment occurs in the input. A quarter of the cases are preceded on the same thread by rejected inputs of the same keyword, another quarter by accepted inputs including ones that earn a misplaced-option warning, a third quarter by every prefix of the input itself that ends at a blank (some end inside a quoted string): the message must not depend on earlier calls. In two cases out of five the keyword glued to the offending word also occurs elsewhere in the input as a plain string argument (decoy). Non-trivial: the failing primary is not first, or the argument is missing. Distinct: by input.".into(),
+        assumptions: vec!["string-valued arguments accept any word, so only 'missing' applies to them; a format is invalid from its first character when its first directive is none (%q, a lone %, %{bogus})".into()],
         exhaustive: false,
     }
 }
